@@ -8,6 +8,7 @@
 import VotelibProofs.Lemmas.NBest
 import VotelibProofs.Lemmas.SortBy
 import VotelibProofs.Lemmas.Bracket
+import VotelibProofs.Lemmas.Threshold
 import VotelibProofs.Lemmas.OpenList
 import Mathlib.Tactic.Ring
 import Mathlib.Algebra.Order.Field.Basic
@@ -21,21 +22,6 @@ open VL
 
 /-- well-formed dict: keys are distinct -/
 def WF (votes : Votes) : Prop := (keys votes).Nodup
-
-/-! ## the boundary rule -/
-
-/-- the comparison used by every threshold: strictly over, or exactly on it when equality is accepted -/
-theorem passes_iff (eq : Bool) (t v : Rat) : passes eq t v = true ↔ (t < v ∨ (eq = true ∧ v = t)) := by
-  simp [passes]
-
-/-- `sum(votes.values())` -/
-theorem sumVals_eq_sum (votes : Votes) : sumVals votes = (votes.map (·.2)).sum := by
-  have h : ∀ (l : Votes) (a : Rat), l.foldl (fun acc p => acc + p.2) a = a + (l.map (·.2)).sum := by
-    intro l
-    induction l with
-    | nil => intro a; simp
-    | cons x xs ih => intro a; simp only [List.foldl_cons, List.map_cons, List.sum_cons, ih]; ring
-  simpa [sumVals] using h votes 0
 
 /-! ## AbsoluteThreshold -/
 
@@ -239,89 +225,6 @@ theorem coalition_error_iff (members : Cand → Nat) (evs : List (Nat × Seatles
     rw [he']
     exact ⟨e', rfl⟩
 
-/-- what `PropertyBracketer` applies to a candidate with property value `v`: the selector registered for `v`
-    (the default when there is none, or when the candidate has no such property), and "everybody passes" when
-    that selector is `None` -/
-theorem property_variant_none (evs : List (Nat × Option Seatless)) (dflt : Option Seatless) (votes : Votes) :
-    propertyVariant evs dflt votes none = (match dflt with | some e => e votes | none => .ok (keys votes)) := rfl
-
-theorem property_variant_some (evs : List (Nat × Option Seatless)) (dflt : Option Seatless) (votes : Votes)
-    (k : Nat) :
-    propertyVariant evs dflt votes (some k) =
-      (match dictGet evs k dflt with | some e => e votes | none => .ok (keys votes)) := rfl
-
-private theorem propertyLoop_spec (prop : Cand → Option Nat) (evs : List (Nat × Option Seatless))
-    (dflt : Option Seatless) (votes : Votes) :
-    ∀ (cs : List Cand) (cache : List (Option Nat × List Cand)) (out : List Cand),
-      (∀ e ∈ cache, propertyVariant evs dflt votes e.1 = .ok e.2) →
-      propertyLoop prop evs dflt votes cs cache = .ok out →
-      out.Sublist cs ∧
-      ∀ c, c ∈ out ↔ c ∈ cs ∧ ∃ r, propertyVariant evs dflt votes (prop c) = .ok r ∧ c ∈ r := by
-  intro cs
-  induction cs with
-  | nil =>
-    intro cache out _ h
-    simp only [propertyLoop] at h
-    cases h
-    simp
-  | cons x xs ih =>
-    intro cache out hinv h
-    simp only [propertyLoop] at h
-    -- common final step
-    have fin : ∀ (r rest : List Cand), propertyVariant evs dflt votes (prop x) = .ok r →
-        (rest.Sublist xs ∧ ∀ c, c ∈ rest ↔ c ∈ xs ∧ ∃ r, propertyVariant evs dflt votes (prop c) = .ok r ∧ c ∈ r) →
-        out = (if r.contains x then x :: rest else rest) →
-        out.Sublist (x :: xs) ∧
-          ∀ c, c ∈ out ↔ c ∈ x :: xs ∧ ∃ r, propertyVariant evs dflt votes (prop c) = .ok r ∧ c ∈ r := by
-      intro r rest hr ⟨hs, hmem⟩ ho
-      by_cases hx : r.contains x = true
-      · rw [if_pos hx] at ho
-        subst ho
-        refine ⟨hs.cons_cons x, ?_⟩
-        intro c
-        simp only [List.mem_cons, hmem]
-        constructor
-        · rintro (rfl | ⟨h1, h2⟩)
-          · exact ⟨Or.inl rfl, r, hr, by simpa using hx⟩
-          · exact ⟨Or.inr h1, h2⟩
-        · rintro ⟨rfl | h1, h2⟩
-          · exact Or.inl rfl
-          · exact Or.inr ⟨h1, h2⟩
-      · rw [if_neg hx] at ho
-        subst ho
-        refine ⟨hs.cons x, ?_⟩
-        intro c
-        simp only [List.mem_cons, hmem]
-        constructor
-        · rintro ⟨h1, h2⟩; exact ⟨Or.inr h1, h2⟩
-        · rintro ⟨rfl | h1, r', hr', hc⟩
-          · rw [hr] at hr'; cases hr'
-            exact absurd (by simpa using hc) hx
-          · exact ⟨h1, r', hr', hc⟩
-    split at h
-    · rename_i e hfind
-      have he := List.mem_of_find?_eq_some hfind
-      have hk : e.1 = prop x := by simpa using List.find?_some hfind
-      have hr : propertyVariant evs dflt votes (prop x) = .ok e.2 := hk ▸ hinv e he
-      simp only [bind, Except.bind] at h
-      split at h
-      · cases h
-      · rename_i rest hrest
-        exact fin e.2 rest hr (ih cache rest hinv hrest) (by cases h; rfl)
-    · simp only [bind, Except.bind] at h
-      split at h
-      · cases h
-      · rename_i r hr
-        split at h
-        · cases h
-        · rename_i rest hrest
-          have hinv' : ∀ e ∈ (prop x, r) :: cache, propertyVariant evs dflt votes e.1 = .ok e.2 := by
-            intro e he
-            rcases List.mem_cons.mp he with rfl | he'
-            · exact hr
-            · exact hinv e he'
-          exact fin r rest hr (ih _ rest hinv' hrest) (by cases h; rfl)
-
 /-- **bracketer_dispatch (property).**  A candidate is passed iff it is passed by the selector registered for its
     own property value, applied to the whole vote (everybody of a bracket whose selector is `None` passes);
     the output keeps the order of `sorted_votes`. -/
@@ -336,15 +239,6 @@ theorem property_dispatch (prop : Cand → Option Nat) (evs : List (Nat × Optio
   rw [hm c, mem_keys_sortDesc]
 
 /-! ## the selector tree: the combinators above are what `Sel.eval` runs -/
-
-theorem sel_eval_abs (a : Attrs) (f : Nat) (t : Rat) (eq : Bool) (votes : Votes) :
-    Sel.eval a (f+1) (.abs t eq) votes none = .ok (absoluteThreshold t eq votes) := rfl
-
-theorem sel_eval_rel (a : Attrs) (f : Nat) (t : Rat) (eq : Bool) (votes : Votes) :
-    Sel.eval a (f+1) (.rel t eq) votes none = relativeThreshold t eq votes := rfl
-
-theorem sel_eval_prev (a : Attrs) (f : Nat) (inner : Sel) (votes pg : Votes) :
-    Sel.eval a (f+1) (.prevGain inner) votes (some pg) = Sel.eval a f inner pg none := rfl
 
 /-- alternative thresholds inside a tree: exactly the union of what the parts pass (each part called with the
     previous gains iff its `evaluate` takes them) -/
@@ -372,11 +266,13 @@ theorem sel_coalition_dispatch (a : Attrs) (f : Nat) (evs : List (Nat × Sel)) (
       ((fun x v => Sel.eval a f x v none) d) votes = .ok out := h
   rw [(coalition_dispatch _ _ _ _ _ h').1 c, dictGet_map (fun x v => Sel.eval a f x v none)]
 
-/-- property bracketer inside a tree -/
+/-- property bracketer inside a tree: a candidate passes iff the selector registered for its property value
+    (`propSel`: `evaluators.get(value, default)`, the default for candidates without the property) passes it;
+    everybody of a bracket whose selector is `None` passes -/
 theorem sel_property_dispatch (a : Attrs) (f : Nat) (evs : List (Nat × Option Sel)) (d : Option Sel)
     (votes : Votes) (out : List Cand) (h : Sel.eval a (f+1) (.property evs d) votes none = .ok out) (c : Cand) :
     c ∈ out ↔ c ∈ keys votes ∧
-      (match (match a.prop c with | some k => dictGet evs k d | none => d) with
+      (match propSel evs d (a.prop c) with
        | some s => ∃ r, Sel.eval a f s votes none = .ok r ∧ c ∈ r
        | none => True) := by
   have h' : propertyBracketer a.prop
@@ -385,38 +281,10 @@ theorem sel_property_dispatch (a : Attrs) (f : Nat) (evs : List (Nat × Option S
   rw [(property_dispatch _ _ _ _ _ h').1 c]
   apply and_congr_right
   intro hc
-  have hv : propertyVariant (evs.map (fun e => (e.1, (Option.map (fun x v => Sel.eval a f x v none)) e.2)))
-      (Option.map (fun x v => Sel.eval a f x v none) d) votes (a.prop c) =
-      (match (match a.prop c with | some k => dictGet evs k d | none => d) with
-       | some s => Sel.eval a f s votes none
-       | none => .ok (keys votes)) := by
-    unfold propertyVariant
-    cases a.prop c with
-    | none => cases d <;> rfl
-    | some k =>
-      simp only
-      rw [dictGet_map (Option.map (fun x v => Sel.eval a f x v none))]
-      cases dictGet evs k d <;> rfl
-  rw [hv]
-  cases (match a.prop c with | some k => dictGet evs k d | none => d) with
+  rw [propertyVariant_sel]
+  cases propSel evs d (a.prop c) with
   | none => simp [hc]
   | some s => simp
-
-/-- what the property bracketer of a tree applies to a property value -/
-private theorem propertyVariant_sel (a : Attrs) (f : Nat) (evs : List (Nat × Option Sel)) (d : Option Sel)
-    (votes : Votes) (v : Option Nat) :
-    propertyVariant (evs.map (fun e => (e.1, (Option.map (fun x v => Sel.eval a f x v none)) e.2)))
-      (Option.map (fun x v => Sel.eval a f x v none) d) votes v =
-      (match (match v with | some k => dictGet evs k d | none => d) with
-       | some s => Sel.eval a f s votes none
-       | none => .ok (keys votes)) := by
-  unfold propertyVariant
-  cases v with
-  | none => cases d <;> rfl
-  | some k =>
-    simp only
-    rw [dictGet_map (Option.map (fun x v => Sel.eval a f x v none))]
-    cases dictGet evs k d <;> rfl
 
 /-- **Fuel is only a technical device.**  `Sel.eval` recurses on a fuel counter bounding the nesting depth of the
     tree; any answer other than the out-of-fuel marker is unchanged by more fuel (the driver runs with fuel 64). -/
@@ -475,7 +343,7 @@ theorem sel_eval_fuel_mono (a : Attrs) : ∀ (f : Nat) (s : Sel) (votes : Votes)
         intro v hv
         rw [propertyVariant_sel] at hv ⊢
         rw [propertyVariant_sel]
-        cases hs : (match v with | some k => dictGet evs k d | none => d) with
+        cases hs : propSel evs d v with
         | none => rfl
         | some s =>
           rw [hs] at hv
